@@ -5,7 +5,10 @@ described by constraints derived from inspect.signature of the real host class (
 parameters, defaults) over symbolic shape variables (how each parameter is passed; keyword order).  z3 enumerates
 ALL models of those constraints (blocking clauses until unsat), each model is rendered as a call with distinct
 marker values, and the real parse()+emit() must either reject it or produce exactly the firmware of the canonical
-fully explicit call (every parameter written out with the value Python binds, defaults included).
+fully explicit call (every parameter written out with the value Python binds, defaults included).  Each shape is
+also rendered in re-spellings Python's tokenizer treats alike (blanks around the `=` of a keyword argument, around
+commas and inside the parentheses: 40 spellings, all of them for the first six keyword shapes of a signature, one per
+shape round-robin for the rest).
 """
 from __future__ import annotations
 
@@ -108,12 +111,21 @@ def shapes_for(sig: inspect.Signature):
     return params, out
 
 
-def render(shape, rev, values):
+# spellings Python's tokenizer treats alike: blanks around `=` of a keyword argument, around commas, inside the parentheses
+EQ_SPELLINGS = ("=", " = ", " =", "= ", "  =  ")
+COMMA_SPELLINGS = (", ", ",", " , ", ",  ")
+PAD_SPELLINGS = ("", " ")
+SPELLINGS = [(e, c, p) for e in EQ_SPELLINGS for c in COMMA_SPELLINGS for p in PAD_SPELLINGS]
+
+
+def render(shape, rev, values, spelling=("=", ", ", "")):
+    eq, comma, pad = spelling
     pos = [values[n] for n, h in shape if h == "pos"]
-    kws = [f"{n}={values[n]}" for n, h in shape if h == "kw"]
+    kws = [f"{n}{eq}{values[n]}" for n, h in shape if h == "kw"]
     if rev:
         kws.reverse()
-    return ", ".join(pos + kws)
+    inner = comma.join(pos + kws)
+    return (pad + inner + pad) if inner else inner
 
 
 def canonical(params, shape, values):
@@ -203,8 +215,22 @@ def method_obligation(item):
     res.sample = {"obligation": oid, "signature": str(sig), "shapes": len(shapes),
                   "example": render(*shapes[0], values) if shapes else ""}
     n_acc = 0
-    for shape, rev in shapes:
-        args = render(shape, rev, values)
+    # every shape in the compact spelling; plus re-spellings (blanks around `=`, commas, parentheses): all of them for
+    # the first shapes that use a keyword, one per shape (round-robin) for the rest
+    work = []
+    kw_seen = 0
+    for i, (shape, rev) in enumerate(shapes):
+        work.append((shape, rev, SPELLINGS[0]))
+        has_kw = any(h == "kw" for _, h in shape)
+        if has_kw and kw_seen < 6:
+            kw_seen += 1
+            work += [(shape, rev, sp) for sp in SPELLINGS[1:]]
+        else:
+            work.append((shape, rev, SPELLINGS[1 + i % (len(SPELLINGS) - 1)]))
+    res.queries = len(work) + 1
+    res.sample["spellings"] = len(SPELLINGS)
+    for shape, rev, spelling in work:
+        args = render(shape, rev, values, spelling)
         canon = canonical(params, shape, values)
         st, out = transpile_or_reject(script(args))
         if st == "crash":
@@ -269,7 +295,8 @@ def run(tier, seed, only=None):
                     "(defaults written out).  Rejection with ValueError is allowed by the property.",
         functions_encoded=["parser._extract_call_argument and every constructor/method dispatch block of _parse_simple_lines "
                            "(through the real parse())", "_to_c_expr Core helper binding", "inspect.signature of the host classes (reference)"],
-        bounds={"keyword orders": "source order and reversed", "shapes per call": "all (<= 400)"},
+        bounds={"keyword orders": "source order and reversed", "shapes per call": "all (<= 400)",
+                "spellings": "40 blank-placement variants: all for the first 6 keyword shapes, one per shape (round-robin) otherwise"},
         assumptions=["provider/callback parameters (state_provider, value_provider, distance_provider, on_click, model/sensor "
                      "aliases, default_distance) are outside this check", "a default of None means 'not given'"],
         exhaustive=True,
